@@ -307,6 +307,12 @@ u8_t *get_v_opt(int argc, char *argv[])
             }
             strlog("Note :", "Using default output file name");
             res->out = fopen(fout, "wb+");
+            if (res->out == NULL)
+            {
+                strlog("Error :", "Could not open file " + std::string(fout));
+                delete res;
+                return NULL;
+            }
         }
         getRandomBuffer(res->r_buf);
         printkey(res->key);
